@@ -52,7 +52,7 @@ func boundaryInt(t *rapid.T) *big.Int {
 
 func genCase(t *rapid.T) Case {
 	var c Case
-	c.Kind = []string{"int64", "int64", "setint", "float64", "float64", "modf", "modf"}[gen.Pick(t, 7, "kind")]
+	c.Kind = []string{"int64", "int64", "setint", "float64", "float64", "modf", "modf", "newbig"}[gen.Pick(t, 8, "kind")]
 	switch c.Kind {
 	case "int64":
 		v := boundaryInt(t)
@@ -86,6 +86,10 @@ func genCase(t *rapid.T) Case {
 		if gen.Pick(t, 30, "special") == 0 {
 			c.X = gen.Special(t, "sp")
 		}
+	case "newbig":
+		// NewWithBigInt of coefficients of any size and sign; X.Coeff carries |b|, X.Neg its sign
+		c.X = core.Dec{Coeff: gen.DigitsN(t, rapid.IntRange(1, 90).Draw(t, "nbl"), gen.Pick(t, 10, "nbs"), "nb"), Neg: rapid.Bool().Draw(t, "nbneg")}
+		c.E = int32(rapid.IntRange(-gen.Limit, gen.Limit).Draw(t, "e"))
 	case "setint":
 		switch gen.Pick(t, 4, "vk") {
 		case 0:
@@ -105,6 +109,11 @@ func genCase(t *rapid.T) Case {
 			k := rapid.IntRange(0, 12).Draw(t, "k")
 			if gen.Pick(t, 3, "fartail") == 0 {
 				k = rapid.IntRange(13, 80).Draw(t, "kfar") // the deciding digit dozens of places out
+				if gen.Pick(t, 3, "veryfar") == 0 {
+					// ... or many hundreds: strconv's decimal buffer holds 800 digits and only
+					// remembers that something non-zero followed
+					k = rapid.IntRange(700, 1300).Draw(t, "kveryfar")
+				}
 			}
 			w := new(big.Int).Mul(base, ref.Pow10(int64(k)))
 			w.Add(w, big.NewInt(int64(rapid.IntRange(-1, 1).Draw(t, "d"))))
@@ -159,6 +168,15 @@ func check(c Case, st *core.Stats) error {
 		if !core.SameFields(x, c.X.Apd()) {
 			return fmt.Errorf("Int64(%v) modified its receiver to %s", c.X, core.Show(x))
 		}
+		// the ErrDecimal wrapper performs the same conversion
+		{
+			ed := apd.MakeErrDecimal(apd.BaseContext.WithPrecision(9))
+			var ev int64
+			core.Guard(st, func() { ev = ed.Int64(c.X.Apd()) })
+			if (ed.Err() == nil) != (err == nil) || (err == nil && ev != got) {
+				return fmt.Errorf("ErrDecimal.Int64(%v) = %d err=%v, Decimal.Int64 = %d err=%v", c.X, ev, ed.Err(), got, err)
+			}
+		}
 		if c.X.Form != 0 {
 			if err == nil {
 				return fmt.Errorf("Int64(%v) = %d, want an error for a non-finite value", c.X, got)
@@ -194,6 +212,44 @@ func check(c Case, st *core.Stats) error {
 			}
 		} else if err == nil {
 			return fmt.Errorf("Int64(%v) = %d without error; the value is %s (integral=%v) and must be rejected", c.X, got, v, integral)
+		}
+	case "newbig":
+		// the argument in each of its representations (core.Dec.Apd spreads them)
+		b := &c.X.Apd().Coeff
+		mag := c.X.Big()
+		want := new(big.Int).Set(mag)
+		if c.X.Neg {
+			b.Neg(b)
+			want.Neg(want)
+		}
+		d := apd.NewWithBigInt(b, c.E)
+		if len(c.X.Coeff) >= 39 {
+			st.NonTrivial("heap-coefficient")
+		} else if len(c.X.Coeff) >= 20 {
+			st.NonTrivial("two-word-coefficient")
+		}
+		bad := func(when string) error {
+			return fmt.Errorf("NewWithBigInt(%s, %d) %s: decimal %s, argument %s", want, c.E, when, core.Show(d), b.String())
+		}
+		ok := func() bool {
+			return d.Form == apd.Finite && d.Negative == (want.Sign() < 0) && d.Exponent == c.E && d.Coeff.Sign() >= 0 && d.Coeff.MathBigInt().Cmp(mag) == 0
+		}
+		if !ok() || b.MathBigInt().Cmp(want) != 0 {
+			return bad("does not represent its argument (or changed it)")
+		}
+		// the decimal owns its coefficient: changing the argument in place afterwards must not
+		// reach it, and changing the coefficient must not reach the argument
+		b.Mul(b, b)
+		b.Add(b, apd.NewBigInt(1))
+		if !ok() {
+			return bad("changed after the argument was modified in place")
+		}
+		after := new(big.Int).Mul(want, want)
+		after.Add(after, big.NewInt(1))
+		d.Coeff.Add(&d.Coeff, apd.NewBigInt(7))
+		d.Coeff.Lsh(&d.Coeff, 3)
+		if b.MathBigInt().Cmp(after) != 0 {
+			return bad("argument changed after the decimal's coefficient was modified in place")
 		}
 	case "setint":
 		d := c.Dirty.Apd()
